@@ -49,7 +49,7 @@ PROPS = {
         "title": "stream upper bound sound for every compressor; delta within budget, version-prefix, scheduled members excluded; replies <= 65,507 bytes",
     },
     "C08": {
-        "suites": [("wire", 150, 1200), ("proc", 60, 600), ("fill", 10, 60)],
+        "suites": [("wire", 150, 1200), ("proc", 60, 600), ("fill", 10, 60), ("delta", 30, 200)],
         "title": "decode(encode m) = (m, no rest) and announced length = written length, for every in-range message in emitted normal form and every compressor/decompressor pair; every message in flight in a reachable state has that form; primitives, ids, digest, block stream (any number of blocks), op stream and builder round trips; wire suite: byte-for-byte encoder agreement on emitted messages, decoder agreement on independently encoded (compressed / raw / multi-block) and malformed streams",
     },
     "C09": {
@@ -150,4 +150,6 @@ def disagreement_is_failing_input(pid, broken):
     return False
 
 
-PANIC_IS_VIOLATION = {"C04", "C06", "C09", "C15", "C18", "C02", "C03", "C05"}
+# C08: Delta::serialize asserts that the bytes written equal the announced length — an abort while a
+# computed reply is being serialized is that assertion (or its like) failing on a concrete message
+PANIC_IS_VIOLATION = {"C04", "C06", "C09", "C15", "C18", "C02", "C03", "C05", "C08"}
